@@ -246,6 +246,15 @@ class FullWorld:
                 pass
         elif a == "Cut":
             self.links[i].do_cut()
+        elif a == "MonitorDrop":
+            # two ping intervals pass without any answer reaching the Leader: its interval timer expires twice
+            m = self.manager("L")
+            for _ in range(2):
+                t = m._timer
+                if t is None or not t.active():
+                    raise RuntimeError("the Leader has no ping timer running")
+                reactor.rightNow = max(reactor.rightNow, t.getTime())
+                reactor.run_call(t)
         elif a == "ObserveLoss":
             link = self.links[i]
             e = self.end_of(link, x)
@@ -617,6 +626,8 @@ def run(prop, tier):
             "third_generation": "cgen.L >= 3 /\\ cgen.F >= 3",
             "stale_accept_queued": "\\E x \\in Sides : accepts[x] # <<>> /\\ Head(accepts[x]).gen < cgen[x]",
             "reconverged": 'cuts >= 1 /\\ mgr.L = "CONNECTED" /\\ mgr.F = "CONNECTED" /\\ sel.L = sel.F /\\ sel.L > 1',
+            "monitor_gave_up": 'last[1] = "MonitorDrop"',
+            "monitor_gave_up_follower_already_lost": 'last[1] = "MonitorDrop" /\\ mgr.F # "CONNECTED"',
         }
         if prop == "C17":
             goals = {
